@@ -688,7 +688,9 @@ type SimListener struct {
 	closed   bool
 	acceptor *Task
 	Accepted int
-	addr     net.Addr
+	// AcceptedConns: server ends handed to the accept loop, in order
+	AcceptedConns []*SimConn
+	addr          net.Addr
 }
 
 func (n *Net) NewListener(name string) *SimListener {
@@ -737,6 +739,7 @@ func (l *SimListener) Accept() (net.Conn, error) {
 			c := l.backlog[0]
 			l.backlog = l.backlog[1:]
 			l.Accepted++
+			l.AcceptedConns = append(l.AcceptedConns, c)
 			s.Mu.Unlock()
 			return c, nil
 		}
